@@ -15,7 +15,10 @@ func init() { register("C14", "other", checkC14) }
 
 func checkC14(w *World, r *Result) {
 	r.Explanation = "Decides structural necessary conditions on generator/typescript/axios_api.go: AGR-C14a every contract slot whose type the method signatures print (body, return, form JSON, query parameters) is collected by renderTypes, so its declaration is in the file; REC-SHAPE/AGR-MD the TypeScript type printer never follows a child the declaration generator does not descend into, and each helper declares what it mentions; SHP-C14m one generateMethod per endpoint, in order, named by Contract.Name; SHP-C14c the call-shape chain tests form data, then JSON body, then verb-expects-body and ends in an unconditional else, with null as body exactly for body-less POST/PUT; AGR-C14f the form fields appended to FormData, the form arguments of the signature and Form.IsZero read the same three slots (File, ValueNames, JSON.Name); AGR-C13b record coverage; TPL-4 balanced brackets of the class and method templates. Does not decide: what request a generated method performs at run time, TypeScript validity (no parser in the sandbox)."
-	r.Rules = []string{"AGR-C14a", "REC-SHAPE", "AGR-MD", "SHP-C14m", "SHP-C14c", "AGR-C14f", "AGR-C14z", "AGR-C14k", "SHP-C13u", "AGR-C13b", "TPL-4", "ALIAS-APPEND", "PRINTF", "CACHE-DROP", "AGR-C14k blob flag / numeric converter"}
+	r.Rules = []string{"AGR-C14a", "REC-SHAPE", "AGR-MD", "SHP-C14m", "SHP-C14c", "AGR-C14f", "AGR-C14z", "AGR-C14k", "SHP-C13u", "AGR-C13b", "TPL-4", "ALIAS-APPEND", "PRINTF", "CACHE-DROP", "AGR-C14k blob flag / numeric converter", "LIT-VALUE"}
+	// the URL, query and form names the client sends are the strings the extraction produced: a literal read as
+	// source text (escapes undecoded) makes the client request a different URL than the server registered
+	litValueRule(w, r, func(rel string) bool { return rel == "analysis/httpapi" || rel == "generator/typescript" })
 	cacheDropRule(w, r, func(rel string) bool { return rel == "generator/typescript" })
 	descentDominatesReturns(w, r, "generator/typescript")
 	printfRule(w, r, "generator/typescript")
